@@ -468,7 +468,7 @@ def unsolvable_at_root(ctx, crate, crs, tag):
                             if ad["k"] == "arg" and q.edge_dominates(b, c.bb, c.target(True), i):
                                 ok, why = True, "behind starting_level == 0"
                 ctx.ob(R, fn, "constructs-Unsolvable", ok, "%s:%s" % (b.file, s["line"]), why)
-    ctx.floor(R, "constructions of Unsolvable", n, 3)
+    ctx.floor(R, "constructions of Unsolvable", n, 2)
     # analyze_unsolvable callers and their guards
     sites = q.callers_of(crate, SOLVER + "analyze_unsolvable")
     ctx.floor(R, "analyze_unsolvable call sites", len(sites), 2)
